@@ -992,6 +992,17 @@ class Interp:
             ra, rb = rb, ra
         elif ca is None and cb is None and rb < ra:
             ra, rb = rb, ra
+        # an integer-valued constant expression is written by value (`2 * V4_LEN` is `8`): rules read lengths and bounds off
+        # these atoms
+        if isinstance(cb, int) and not isinstance(cb, bool) and ca is None and not isinstance(core(b), Const):
+            rb = str(cb) if core(b).r() == rb else rb
+            ra = str(cb) if core(b).r() == ra else ra
+        elif isinstance(ca, int) and not isinstance(ca, bool) and cb is None and not isinstance(core(a), Const):
+            ra2 = str(ca)
+            if core(a).r() == ra:
+                ra = ra2
+            elif core(a).r() == rb:
+                rb = ra2
         a_ = atom("eq", ra, rb)
         self.atom_vals[a_[1]] = (a, b)
         return a_
